@@ -82,6 +82,9 @@ def check_case(case):
             hit = [e for e in here if e['level'] == 'seg' and e['code'] in codes and e['seg_id'] == exp.get('removed')]
             if not hit:
                 out.fail('%s:no-such-error' % kind, 'removed %s; errors in that set: %s' % (exp.get('removed'), _brief(here)))
+            elif len(hit) > 1 or [e for e in o.errors if e not in hit]:
+                other = [e for e in o.errors if e not in hit[:1]]
+                out.fail('%s:reported-more-than-once-or-with-extras' % kind, 'removed %s: %d matching reports, further errors %s' % (exp.get('removed'), len(hit), _brief(other)))
             elif not [e for e in hit if exp['pos'] <= e['pos'] <= exp['pos'] + exp.get('pos_slack', 0)]:
                 out.fail('%s:wrong-coordinates%s' % (kind, ':next-is-SE' if exp.get('next_id') == 'SE' else ''), 'removed %s before pos %s; reported at pos %s' % (exp.get('removed'), exp['pos'], [e['pos'] for e in hit]))
         else:
